@@ -537,6 +537,11 @@ func (w *World) canonResolved(v ssa.Value) string {
 		if errResultIndex(cal) >= 0 && !w.resolveFallible {
 			break
 		}
+		// exported functions and methods are vocabulary the rules use by name
+		// (ctx.Height(), GasPrice()…): only package-private helpers are looked through
+		if token.IsExported(cal.Name()) {
+			break
+		}
 		env := map[*ssa.Parameter]string{}
 		for j, p := range cal.Params {
 			env[p] = w.canonResolved(call.Common().Args[j])
